@@ -12,27 +12,40 @@ from . import refimpl as R
 from . import keys as K
 
 CONFIGS = [("A128KW", "A128GCM"), ("A256GCMKW", "A128CBC-HS256"), ("ECDH-ES+A128KW", "A256GCM"), ("ECDH-ES", "A128GCM"), ("dir", "A256CBC-HS512"),
-           ("PBES2-HS256+A128KW", "A128GCM"), ("RSA-OAEP", "A192GCM")]
+           ("PBES2-HS256+A128KW", "A128GCM"), ("RSA-OAEP", "A192GCM"), ("ECDH-1PU+A128KW", "A128CBC-HS256"), ("ECDH-1PU", "A256GCM"),
+           ("ECDH-ES+A256KW", "A128GCM")]
+CURVE = {"ECDH-ES+A256KW": "OKP:X25519"}
 PT = b"plaintext that travels \x00\xff"
 
 
 def replay_case(case, alg, enc, ser, nrec):
     from joserfc import jwe
     out = []
-    rj = K.get(K.jwe_key_kind(alg, enc) if not alg.startswith("ECDH") else "EC:P-256", 0)
+    J.register_drafts({"1pu"})
+    rj = K.get(K.jwe_key_kind(alg, enc) if not alg.startswith("ECDH") else CURVE.get(alg, "EC:P-256"), 0)
     pub, priv = J.jkey(J.pub(rj)), J.jkey(rj)
+    sj = K.get(CURVE.get(alg, "EC:P-256"), 1) if "1PU" in alg else None
+    ekw = {"sender_key": J.jkey(sj)} if sj else {}
+    dkw = {"sender_key": J.jkey(J.pub(sj))} if sj else {}
     reg = jwe.JWERegistry(algorithms=[alg, enc])
+    if case["origin"] == "pinned" and not alg.startswith("ECDH"):
+        return out                                    # only key agreement has an ephemeral key to pin
+    if case["origin"] == "parsed" and sj:
+        return out                                    # whoever parsed an ECDH-1PU token holds the sender's public key only: it cannot encrypt as the sender
     hdr0 = {"alg": alg, "enc": enc, **({"p2c": 8} if alg.startswith("PBES2") else {})}
-    if case["origin"] == "built":
+    if case["origin"] in ("built", "pinned"):
         cls = jwe.FlattenedJSONEncryption if ser == "flattened" else jwe.GeneralJSONEncryption
         obj = cls(dict(hdr0), PT, None, b"aad v1")
         for _ in range(nrec if ser == "general" else 1):
             obj.add_recipient(None, pub)
+        if case["origin"] == "pinned":
+            for r in obj.recipients:
+                r.ephemeral_key = J.fresh_jkey({**R.gen_like(rj), "kid": "pinned-ephemeral", "use": "enc"})
     else:
         # a foreign token (protected header spelled with whitespace), parsed and authenticated by decrypt_json
         spell = lambda d: json.dumps(d, separators=(" , ", " : ")).encode()
-        parts = R.jwe_encrypt(dict(hdr0), PT, [{"jwk": rj} for _ in range(nrec if ser == "general" else 1)], aad=b"aad v1", spell=spell)
-        obj = jwe.decrypt_json(R.jwe_json(parts, flattened=(ser == "flattened")), priv, registry=reg)
+        parts = R.jwe_encrypt(dict(hdr0), PT, [{"jwk": rj, "sender": sj} for _ in range(nrec if ser == "general" else 1)], aad=b"aad v1", spell=spell)
+        obj = jwe.decrypt_json(R.jwe_json(parts, flattened=(ser == "flattened")), priv, registry=reg, **dkw)
     ivs = []
     nh = na = 0
     for i, op in enumerate(case["hist"]):
@@ -42,12 +55,18 @@ def replay_case(case, alg, enc, ser, nrec):
             na += 1; obj.aad = b"aad v%d" % (na + 1)
         else:
             try:
-                tok = jwe.encrypt_json(obj, pub, registry=reg)
+                tok = jwe.encrypt_json(obj, pub, registry=reg, **ekw)
             except Exception as e:  # noqa
                 out.append(("C04", f"step {i}: encrypt_json of the object raised {type(e).__name__}", str(e)[:80])); break
             ivs.append(tok["iv"])
+            # C12: whatever ephemeral key the recipient carried into this encryption, only its public members are published
+            hs = [json.loads(R.b64d(tok["protected"])), tok.get("unprotected") or {}, tok.get("header") or {}] + [r.get("header") or {} for r in tok.get("recipients", [])]
+            for h in hs:
+                epk = h.get("epk")
+                if isinstance(epk, dict) and set(epk) & {"d", "p", "q", "dp", "dq", "qi", "oth", "k"}:
+                    out.append(("C12", f"step {i}: the epk header carries {sorted(set(epk) & {'d', 'p', 'q', 'dp', 'dq', 'qi', 'oth', 'k'})}", ""))
             try:
-                hdr, pt = R.jwe_decrypt(tok, rj)
+                hdr, pt = R.jwe_decrypt(tok, rj, sender=J.pub(sj) if sj else None)
                 if pt != PT:
                     out.append(("C08", f"step {i}: an independent implementation decrypts the token to another plaintext", ""))
                 if json.loads(R.b64d(tok["protected"])).get("cty") != (("edit-%d" % nh) if nh else None) and nh:
@@ -57,7 +76,7 @@ def replay_case(case, alg, enc, ser, nrec):
             except Exception as e:  # noqa
                 out.append(("C08", f"step {i}: an independent implementation cannot decrypt the token ({type(e).__name__})", str(e)[:60]))
             try:
-                if jwe.decrypt_json(tok, priv, registry=reg).plaintext != PT:
+                if jwe.decrypt_json(tok, priv, registry=reg, **dkw).plaintext != PT:
                     out.append(("C04", f"step {i}: joserfc decrypts its own token to another plaintext", ""))
             except Exception as e:  # noqa
                 out.append(("C04", f"step {i}: joserfc cannot decrypt the token it produced ({type(e).__name__})", str(e)[:60]))
@@ -68,7 +87,7 @@ def replay_case(case, alg, enc, ser, nrec):
 
 def run(ctx: Ctx, prop: str) -> int:
     r = ctx.tlc("JweReuse", timeout=300)
-    for d in ("StaleAuthenticatedData", "GeneratedMembersKept", "IvKept"):
+    for d in ("StaleAuthenticatedData", "GeneratedMembersKept", "IvKept", "EphemeralPrivatePublished"):
         ctx.sensitivity("JweReuse", "JweReuse_dev_" + d)
     cases = list({json.dumps(c, sort_keys=True): c for c in r.cases}.values())
     if len(cases) < 20:
@@ -76,7 +95,7 @@ def run(ctx: Ctx, prop: str) -> int:
     n = 0
     for alg, enc in CONFIGS:
         for ser, nrec in (("flattened", 1), ("general", 1), ("general", 2)):
-            if nrec == 2 and alg in ("dir", "ECDH-ES"):
+            if nrec == 2 and alg in ("dir", "ECDH-ES", "ECDH-1PU"):
                 continue
             for c in cases:
                 n += 1
